@@ -256,18 +256,23 @@ def scope_closures(fx, fam):
 
 
 def consumer_calls(fx, g):
-    """calls that hand a YamlDeserializer (i.e. the event source) to user code."""
+    """calls that hand a *root* YamlDeserializer (freshly built over the event source) to user code."""
     for b, t in g.calls():
-        f = t["f"]
+        c = fx.callee(t)
+        if c.startswith("de::YamlDeserializer::"):
+            continue
         for a in t["args"]:
             pl = a.get("mv") or a.get("cp")
             if pl is None or pl["pr"]:
                 continue
-            if "de::YamlDeserializer" in g.local_ty(pl["l"]) and not g.local_ty(pl["l"]).startswith("&"):
-                c = fx.callee(t)
-                if c.startswith("de::YamlDeserializer::"):
-                    continue
+            if "de::YamlDeserializer" not in g.local_ty(pl["l"]):
+                continue
+            with g.deep():
+                sym = g.sym_operand(a)
+            if sym_contains(sym, lambda c_: c_[0] == "call" and c_[1].startswith("de::YamlDeserializer::new") and sym_contains(
+                    c_, lambda s_: s_[0] == "cast" and "live_events::LiveEvents" in str(s_[4] or ""))):
                 yield b, t
+                break
 
 
 def check_p3(ctx, fx, config):
